@@ -1,7 +1,228 @@
 package main
 
+import (
+	"bytes"
+	"fmt"
+	"go/ast"
+	"go/printer"
+	"go/token"
+	"strings"
+)
+
 func init() {
 	fpRegister("pkg/storage/retention.go", "RetentionScanner.Start", "RetentionScanner.DoScan", "RetentionScanner.Join", "NewRetentionScanner")
 	fpRegister("pkg/storage/mem/store.go", "Store.VisitMailboxes")
 	fpRegister("pkg/storage/file/fstore.go", "Store.VisitMailboxes")
+}
+
+// ---- structure of RetentionScanner.Start and DoScan (translator): the statement skeleton of both functions
+// (logging and metrics stripped), and the features the model is written from — the disabled-guard, the minute,
+// the arms of the three selects, the cutoff expression and the removal test.
+
+func init() { register("RetentionShape.v", genRetentionShape) }
+
+func isLogOrMetric(fset *token.FileSet, e ast.Expr) bool {
+	t := exprText(fset, e)
+	return strings.HasPrefix(t, "slog.") || strings.HasPrefix(t, "log.") || strings.HasPrefix(t, "exp") ||
+		strings.HasPrefix(t, "scanCompletedMillis.")
+}
+
+// skeleton prints one line per statement; function literals passed to calls are expanded.
+func skeleton(fset *token.FileSet, stmts []ast.Stmt, out *[]string) {
+	for _, s := range stmts {
+		switch x := s.(type) {
+		case *ast.ExprStmt:
+			if isLogOrMetric(fset, x.X) {
+				continue
+			}
+			skelExpr(fset, exprText(fset, x.X), x.X, out)
+		case *ast.AssignStmt:
+			t := exprText(fset, x.Lhs[0])
+			for _, l := range x.Lhs[1:] {
+				t += ", " + exprText(fset, l)
+			}
+			t += " " + x.Tok.String() + " "
+			var lit *ast.FuncLit
+			for i, r := range x.Rhs {
+				if i > 0 {
+					t += ", "
+				}
+				if c, ok := r.(*ast.CallExpr); ok {
+					if f := funcLitArg(c); f != nil {
+						lit = f
+						t += exprText(fset, c.Fun) + "(func)"
+						continue
+					}
+				}
+				t += exprText(fset, r)
+			}
+			if lit != nil {
+				*out = append(*out, t+" {")
+				skeleton(fset, lit.Body.List, out)
+				*out = append(*out, "}")
+			} else if strings.HasPrefix(t, "slog ") || strings.HasPrefix(t, "retained ") || strings.HasPrefix(t, "storeSize ") {
+				continue
+			} else {
+				*out = append(*out, t)
+			}
+		case *ast.IncDecStmt:
+			continue // counters of the metrics
+		case *ast.IfStmt:
+			h := "if "
+			if x.Init != nil {
+				var tmp []string
+				skeleton(fset, []ast.Stmt{x.Init}, &tmp)
+				h += strings.Join(tmp, " ") + "; "
+			}
+			*out = append(*out, h+exprText(fset, x.Cond)+" {")
+			skeleton(fset, x.Body.List, out)
+			if x.Else != nil {
+				*out = append(*out, "} else {")
+				if b, ok := x.Else.(*ast.BlockStmt); ok {
+					skeleton(fset, b.List, out)
+				} else {
+					skeleton(fset, []ast.Stmt{x.Else}, out)
+				}
+			}
+			*out = append(*out, "}")
+		case *ast.ForStmt:
+			*out = append(*out, "for {")
+			skeleton(fset, x.Body.List, out)
+			*out = append(*out, "}")
+		case *ast.RangeStmt:
+			*out = append(*out, "for range "+exprText(fset, x.X)+" {")
+			skeleton(fset, x.Body.List, out)
+			*out = append(*out, "}")
+		case *ast.LabeledStmt:
+			*out = append(*out, x.Label.Name+":")
+			skeleton(fset, []ast.Stmt{x.Stmt}, out)
+		case *ast.SelectStmt:
+			*out = append(*out, "select {")
+			for _, c := range x.Body.List {
+				cc := c.(*ast.CommClause)
+				if cc.Comm == nil {
+					*out = append(*out, "default:")
+				} else {
+					var tmp []string
+					skeleton(fset, []ast.Stmt{cc.Comm}, &tmp)
+					*out = append(*out, "case "+strings.Join(tmp, " ")+":")
+				}
+				skeleton(fset, cc.Body, out)
+			}
+			*out = append(*out, "}")
+		case *ast.ReturnStmt:
+			t := "return"
+			for i, r := range x.Results {
+				if i == 0 {
+					t += " "
+				} else {
+					t += ", "
+				}
+				t += exprText(fset, r)
+			}
+			*out = append(*out, t)
+		case *ast.BranchStmt:
+			t := x.Tok.String()
+			if x.Label != nil {
+				t += " " + x.Label.Name
+			}
+			*out = append(*out, t)
+		case *ast.DeferStmt:
+			if f, ok := x.Call.Fun.(*ast.FuncLit); ok {
+				*out = append(*out, "defer func {")
+				skeleton(fset, f.Body.List, out)
+				*out = append(*out, "}")
+			} else {
+				*out = append(*out, "defer "+exprText(fset, x.Call))
+			}
+		case *ast.BlockStmt:
+			skeleton(fset, x.List, out)
+		default:
+			*out = append(*out, "stmt "+exprText2(fset, s))
+		}
+	}
+}
+
+func exprText2(fset *token.FileSet, n ast.Node) string {
+	var b bytes.Buffer
+	printer.Fprint(&b, fset, n)
+	return strings.Join(strings.Fields(b.String()), " ")
+}
+
+func funcLitArg(c *ast.CallExpr) *ast.FuncLit {
+	for _, a := range c.Args {
+		if f, ok := a.(*ast.FuncLit); ok {
+			return f
+		}
+	}
+	return nil
+}
+
+func skelExpr(fset *token.FileSet, text string, e ast.Expr, out *[]string) {
+	if c, ok := e.(*ast.CallExpr); ok {
+		if f := funcLitArg(c); f != nil {
+			*out = append(*out, exprText(fset, c.Fun)+"(func) {")
+			skeleton(fset, f.Body.List, out)
+			*out = append(*out, "}")
+			return
+		}
+	}
+	*out = append(*out, strings.Join(strings.Fields(text), " "))
+}
+
+func genRetentionShape(repo string) (string, error) {
+	fset, f, err := parseFile(repo, "pkg/storage/retention.go")
+	if err != nil {
+		return "", err
+	}
+	start := findFunc(f, "RetentionScanner.Start")
+	scan := findFunc(f, "RetentionScanner.DoScan")
+	join := findFunc(f, "RetentionScanner.Join")
+	if start == nil || scan == nil || join == nil {
+		return "", fmt.Errorf("retention.go: Start / DoScan / Join not found")
+	}
+	var ss, ds, js []string
+	skeleton(fset, start.Body.List, &ss)
+	skeleton(fset, scan.Body.List, &ds)
+	skeleton(fset, join.Body.List, &js)
+	// features
+	var guardOp, guardRHS string
+	if len(start.Body.List) > 0 {
+		for _, s := range start.Body.List {
+			if is, ok := s.(*ast.IfStmt); ok {
+				if be, ok := is.Cond.(*ast.BinaryExpr); ok && strings.Contains(exprText(fset, be.X), "retentionPeriod") {
+					guardOp, guardRHS = be.Op.String(), exprText(fset, be.Y)
+				}
+				break
+			}
+		}
+	}
+	if guardOp == "" {
+		return "", fmt.Errorf("Start: no guard on retentionPeriod as the first if statement")
+	}
+	var waitOp, waitRHS string
+	ast.Inspect(start, func(n ast.Node) bool {
+		if is, ok := n.(*ast.IfStmt); ok {
+			if be, ok := is.Cond.(*ast.BinaryExpr); ok && exprText(fset, be.X) == "since" {
+				waitOp, waitRHS = be.Op.String(), exprText(fset, be.Y)
+			}
+		}
+		return true
+	})
+	if waitOp == "" {
+		return "", fmt.Errorf("Start: no test of `since`")
+	}
+	minute := map[string]int{"time.Minute": 60, "time.Second": 1, "time.Hour": 3600}
+	secs, ok := minute[waitRHS]
+	if !ok {
+		return "", fmt.Errorf("Start: `since` is compared with %s, not with a time unit constant", waitRHS)
+	}
+	var b strings.Builder
+	b.WriteString(coqHeader("C12: statement skeleton of RetentionScanner.Start / DoScan / Join (pkg/storage/retention.go; logging and metrics stripped) and the constants of the run loop."))
+	fmt.Fprintf(&b, "Definition start_skeleton : list (list N) :=\n  %s%%N.\n\n", coqStrList(ss))
+	fmt.Fprintf(&b, "Definition doscan_skeleton : list (list N) :=\n  %s%%N.\n\n", coqStrList(ds))
+	fmt.Fprintf(&b, "Definition join_skeleton : list (list N) :=\n  %s%%N.\n\n", coqStrList(js))
+	fmt.Fprintf(&b, "(* if rs.retentionPeriod %s %s *)\nDefinition disabled_guard_op : list N := %s%%N.\nDefinition disabled_guard_rhs : Z := %s%%Z.\n\n", guardOp, guardRHS, coqStr(guardOp), guardRHS)
+	fmt.Fprintf(&b, "(* if since %s %s *)\nDefinition wait_op : list N := %s%%N.\nDefinition wait_seconds : Z := %d%%Z.\n", waitOp, waitRHS, coqStr(waitOp), secs)
+	return b.String(), nil
 }
